@@ -522,7 +522,7 @@ pub fn generate(prop: &str, rng: &mut crate::rng::Rng, thorough: bool) -> ProofC
     // Clauses posted through the API cannot be tagged ("tagging clauses is not implemented"; the
     // code notes that untagged nogoods are a gap of the proof logging), so a derivation that rests
     // on one has no inference a checker could validate; they are outside this workload.
-    let mut pool: Vec<Kind> = CORE_KINDS.iter().copied().filter(|k| !matches!(k, Kind::PredClause | Kind::LitClause | Kind::LitConj)).collect();
+    let mut pool: Vec<Kind> = CORE_KINDS.iter().copied().filter(|k| !matches!(k, Kind::PredClause | Kind::ViewClause | Kind::LitClause | Kind::LitConj)).collect();
     pool.push(Kind::Cumulative);
     let mut sw = Swarm::draw(rng, &pool, thorough);
     let optimise = rng.chance(0.45);
